@@ -35,7 +35,9 @@ func (c *compiler) floatOrByteAsInt(src value.Value, from ddpIrType) value.Value
 	case c.ddpinttyp:
 		return src
 	case c.ddpfloattyp:
-		return c.cbb.NewFPToSI(src, ddpint)
+		// saturating conversion: values outside the range of a Zahl become the nearest Zahl, NaN becomes 0
+		// (the plain instruction is undefined for them)
+		return c.cbb.NewCall(c.functions["llvm.fptosi.sat.i64.f64"].irFunc, src)
 	case c.ddpbytetyp:
 		return c.cbb.NewZExt(src, ddpint)
 	default:
@@ -61,7 +63,8 @@ func (c *compiler) intOrFloatAsByte(src value.Value, from ddpIrType) value.Value
 	case c.ddpinttyp:
 		return c.cbb.NewTrunc(src, ddpbyte)
 	case c.ddpfloattyp:
-		return c.cbb.NewFPToUI(src, ddpbyte)
+		// saturating conversion, see floatOrByteAsInt
+		return c.cbb.NewCall(c.functions["llvm.fptoui.sat.i8.f64"].irFunc, src)
 	case c.ddpbytetyp:
 		return src
 	default:
